@@ -111,7 +111,21 @@ fn emulated(sig: i32, ctx: usize, e: &mut Emit) {
         3 | 4 => {
             // through flag::register_conditional_default with the condition true (3) / false (4)
             let cond = std::sync::Arc::new(std::sync::atomic::AtomicBool::new(ctx == 3));
-            match std::panic::catch_unwind(|| signal_hook::flag::register_conditional_default(sig, cond)) {
+            let disp = |s: i32| unsafe {
+                let mut sa: libc::sigaction = std::mem::zeroed();
+                libc::sigaction(s, std::ptr::null(), &mut sa);
+                (sa.sa_sigaction, sa.sa_flags)
+            };
+            let before = disp(sig);
+            let outcome = std::panic::catch_unwind(|| signal_hook::flag::register_conditional_default(sig, cond));
+            if !matches!(outcome, Ok(Ok(_))) && disp(sig) != before {
+                // refused, yet the signal's disposition is not what it was
+                let er = match &outcome { Ok(Err(er)) => er.raw_os_error().unwrap_or(-1), _ => -2 };
+                e.line(&format!("ret=err({}) CHANGED:disposition", er));
+                e.line("continued");
+                return;
+            }
+            match outcome {
                 Ok(Ok(_)) => {
                     unsafe {
                         libc::raise(sig);
